@@ -113,18 +113,30 @@ static const struct { const char *ip; int bits; } HSCFG[] = {
 	{ "223.255.255.254", 24 }, { "1.1.1.1", 8 }, { "111.222.233.244", 28 }, { "192.168.100.200", 26 },
 };
 #define NHS ((int)(sizeof HSCFG / sizeof HSCFG[0]))
+static void hs_addr(struct sockaddr_storage *me, socklen_t *ml, char *a, size_t an, int variant, const char *net, int host, int port)
+{
+	switch (variant % 3) {
+	case 0: snprintf(a, an, "%s.%d", net, host); vw_mkaddr(me, ml, a, port); break;
+	case 1: snprintf(a, an, "2001:db8:%d::%x", variant, host); vw_mkaddr6(me, ml, a, port); break;
+	default: snprintf(a, an, "::ffff:%s.%d", net, host); vw_mkaddr6(me, ml, a, port); break;
+	}
+}
+
 static void hs_job(int k)
 {
 	struct w_server_cfg c = { .topdomain = "t.example.com", .password = "sesame", .my_ip = HSCFG[k].ip, .netmask = HSCFG[k].bits, .mtu = 1130, .check_ip = 1, .srand_seed = 1 };
 	unsigned char pw32[33]; memset(pw32, 0, sizeof pw32); strcpy((char *)pw32, "sesame");
 	vw_init();
-	adv_boot(&c, 0, 0);
+	adv_boot(&c, 1, 0);
 	int nu = s_w_created_users();
 	struct tun_user *us = s_w_users();
 	char seen[16][64]; int nseen = 0;
 	for (int i = 0; i < nu && i < 16; i++) {
-		struct sockaddr_storage me; socklen_t ml; char a[32];
-		snprintf(a, sizeof a, "198.51.100.%d", 10 + i); vw_mkaddr(&me, &ml, a, 4000 + i);
+		struct sockaddr_storage me; socklen_t ml; char a[64];
+		/* how the session reaches the server: IPv4, IPv6, or an IPv4-mapped IPv6 source on the IPv6 socket (a dual-stack
+		 * socket handed over by the service manager); the server formats such addresses through other library calls
+		 * (seeded C18-h: a static inet_ntoa() buffer shared with the login reply) */
+		hs_addr(&me, &ml, a, sizeof a, k + i, "198.51.100", 10 + i, 4000 + i);
 		uint8_t pkt[700]; const uint8_t *pl; static rd_msg m; int n;
 		adv_clear(); n = tm_version(pkt, 100 + i, 10, 0x00000502, 0x300 + i, c.topdomain); adv_send(&me, ml, pkt, n);
 		if (adv_nout != 1 || (n = tm_null_payload(adv_outs[0].data, adv_outs[0].len, &pl, &m)) < 9 || memcmp(pl, "VACK", 4)) { viol("session-not-creatable", "%s/%d: version request %d of %d not acknowledged", HSCFG[k].ip, HSCFG[k].bits, i + 1, nu); return; }
@@ -155,8 +167,8 @@ static void hs_job(int k)
 		if (r >= 0) viol("lookup-finds-wrong-session", "%s/%d: session %d has been silent for 61 s but looking up its address still finds session %d", HSCFG[k].ip, HSCFG[k].bits, i, r);
 	}
 	for (int i = 0; i < nu && i < 16; i++) {
-		struct sockaddr_storage me; socklen_t ml; char a[32];
-		snprintf(a, sizeof a, "198.51.101.%d", 10 + i); vw_mkaddr(&me, &ml, a, 5000 + i);
+		struct sockaddr_storage me; socklen_t ml; char a[64];
+		hs_addr(&me, &ml, a, sizeof a, k + i + 1, "198.51.101", 10 + i, 5000 + i);
 		uint8_t pkt[700]; const uint8_t *pl; static rd_msg m; int n;
 		adv_clear(); n = tm_version(pkt, 300 + i, 10, 0x00000502, 0x500 + i, c.topdomain); adv_send(&me, ml, pkt, n);
 		if (adv_nout != 1 || (n = tm_null_payload(adv_outs[0].data, adv_outs[0].len, &pl, &m)) < 9 || memcmp(pl, "VACK", 4)) { viol("session-not-creatable", "%s/%d: after 61 s of silence version request %d of %d is not acknowledged", HSCFG[k].ip, HSCFG[k].bits, i + 1, nu); return; }
@@ -169,6 +181,12 @@ static void hs_job(int k)
 		uint8_t h[16]; s_login_calculate((char *)h, 16, (const char *)pw32, (int)seed);
 		adv_clear(); n = tm_login(pkt, 400 + i, 10, slot, h, 16, 0x600 + i, c.topdomain); adv_send(&me, ml, pkt, n);
 		xp_count(K_LOGINS, 1);
+		if (adv_nout == 1 && (n = tm_null_payload(adv_outs[0].data, adv_outs[0].len, &pl, &m)) >= 10) {
+			char rep[200], sip[70] = "", cip[70] = ""; int mtu = -1, nb = -1; snprintf(rep, sizeof rep, "%.*s", n > 190 ? 190 : n, pl);
+			struct in_addr ia; ia.s_addr = us[slot].tun_ip;
+			if (sscanf(rep, "%64[^-]-%64[^-]-%d-%d", sip, cip, &mtu, &nb) != 4 || strcmp(cip, inet_ntoa(ia)) || strcmp(sip, HSCFG[k].ip))
+				viol("announced-address-differs-from-assigned", "%s/%d: second holder of slot %d is told '%s' but the server's table holds (and routes) %s", HSCFG[k].ip, HSCFG[k].bits, slot, rep, inet_ntoa(ia));
+		} else viol("login-not-answered", "%s/%d: login of the second holder of slot %d not answered", HSCFG[k].ip, HSCFG[k].bits, slot);
 		if (s_find_user_by_ip(us[slot].tun_ip) != slot) viol("lookup-misses-owner", "%s/%d: second holder of slot %d logged in, looking up its address does not find it", HSCFG[k].ip, HSCFG[k].bits, slot);
 	}
 	xp_outcome(0x18000 + k);
